@@ -104,6 +104,39 @@ type Term struct {
 	I1   int
 	I2   int
 	id   uint64
+	key  string
+}
+
+// Key returns a canonical structural key of t (cached).
+func (t *Term) Key() string {
+	if t.key != "" {
+		return t.key
+	}
+	var sb strings.Builder
+	switch t.Op {
+	case OConst:
+		fmt.Fprintf(&sb, "c%d:%d:%x", t.S.K, t.S.W, t.Val)
+	case OVar:
+		sb.WriteString("v:" + t.Name)
+	default:
+		fmt.Fprintf(&sb, "(%d", t.Op)
+		if t.Op == OExtract {
+			fmt.Fprintf(&sb, "[%d:%d]", t.I1, t.I2)
+		}
+		if t.Op == OZext || t.Op == OSext || t.Op == OFToS || t.Op == OFToU {
+			fmt.Fprintf(&sb, "w%d", t.S.W)
+		}
+		if t.Op == OUF {
+			sb.WriteString(t.Name)
+		}
+		for _, a := range t.Args {
+			sb.WriteString(" ")
+			sb.WriteString(a.Key())
+		}
+		sb.WriteString(")")
+	}
+	t.key = sb.String()
+	return t.key
 }
 
 var idCounter uint64
